@@ -122,7 +122,7 @@ fn check_seq(acc: &mut Acc, idx: usize, pts: &[IP], full: bool) {
 
 pub fn run(mut run: Run) -> i32 {
     let quick = run.ctx.quick();
-    run.rule = "every ordered sequence of k distinct lattice points (G4, k<=5; order matters for the tie-breaking of quick-hull) and every sequence with repetition (G3, k<=5; thorough k<=6), \
+    run.rule = "every ordered sequence of k distinct lattice points (G4, k<=5, thorough k<=6; G5, k<=4, thorough k<=5; order matters for the tie-breaking of quick-hull) and every sequence with repetition (G3, k<=6; thorough k<=7), \
         through quick_hull, graham_hull, ConvexHull for MultiPoint/LineString/Polygon in f64 and i64: closed, CCW, strictly convex, vertex set = exact monotone-chain hull, contains every input by exact orientation; \
         minimum_rotated_rect contains all inputs and is no larger than the bounding rect; distinct = (n, hull size, distinct points)"
         .into();
@@ -146,8 +146,26 @@ pub fn run(mut run: Run) -> i32 {
             check_seq(acc, idx, &pts, idx % 16 == 0);
         });
     }
+    // sequences without repetition over the 5x5 lattice (25 points: more collinear triples and longer collinear runs)
+    let g5 = grid(5);
+    for k in 3..=(if quick { 4usize } else { 5 }) {
+        let n: usize = (0..k).map(|i| 25 - i).product();
+        let g5 = g5.clone();
+        run.stage(&format!("G5-distinct-k{}", k), n, move |idx, acc| {
+            let mut avail: Vec<usize> = (0..25).collect();
+            let mut rem = idx;
+            let mut pts = Vec::with_capacity(k);
+            for i in 0..k {
+                let base = 25 - i;
+                let d = rem % base;
+                rem /= base;
+                pts.push(g5[avail.remove(d)]);
+            }
+            check_seq(acc, idx, &pts, idx % 16 == 0);
+        });
+    }
     let g3 = grid(3);
-    let kmax = 6;
+    let kmax = if quick { 6 } else { 7 };
     for k in 1..=kmax {
         let n = 9usize.pow(k as u32);
         let g3 = g3.clone();
